@@ -142,6 +142,12 @@ def run_procs(jobs, res, timeout):
         passed = [int(x) for x in PASSED_RE.findall(txt)]
         res.executed += sum(passed)
         res.requested += req
+        fatal = re.search(r"^(fatal error: (?!runtime: out of memory|runtime: cannot allocate)[^\n]*)", txt, re.M)
+        if rc != 0 and not viol and fatal:
+            # the Go runtime aborted the process inside the code under test (e.g. unlock of unlocked mutex,
+            # concurrent map writes): the property 'never crashes' is violated; the log is the replay artefact
+            res.violations.append((name.split("#")[0], env["VERIF_LOG"], fatal.group(1)[:300]))
+            viol = [fatal.group(1)]
         if rc != 0 and not viol:
             tail = txt[-3000:]
             if "panic: test timed out" in txt:
